@@ -70,7 +70,7 @@ def shards(tier):
 
 def required_counters(tier):
     return {
-        "calls.well_typed": 1000, "classes.constructions": 30, "joint_typechecker.calls": 5, "coroutine_protocol.scripts": 10, "how_called.calls": 12, "factory.calls": 18,
+        "calls.well_typed": 1000, "classes.constructions": 30, "joint_typechecker.calls": 5, "coroutine_protocol.scripts": 10, "how_called.calls": 12, "factory.calls": 18, "signature_sources.targets": 4,
         "calls.ill_typed": 300,
         "calls.non_binding": 300,
         "kind.def": 300,
@@ -792,6 +792,55 @@ def arm_how_it_was_called(rec):
                 rec.violation("how-called", {"checker": cname, "call": name}, f"wrapper that records how it was called, call {name}: plain saw {s1} -> {r1}, decorated saw {s2} -> {r2}", mechanism="wrapped-callee-sees-other-call-shape")
 
 
+def arm_signature_sources(rec):
+    """what is checked is the callable's SIGNATURE (inspect.signature follows __wrapped__ and __call__), wherever the
+    annotations physically live: a wrapper that only sets __wrapped__, a callable object (equinox Module without
+    fields, plain class instance) with an annotated __call__, a functools.partial"""
+    import functools
+
+    import beartype
+    import equinox as eqx
+    import typeguard
+
+    from jaxtyping import Float, TypeCheckError, jaxtyped
+
+    for cname, tc in (("typeguard", typeguard.typechecked), ("beartype", beartype.beartype)):
+        LOG = []
+        ns = {"Float": Float, "N": np.ndarray, "LOG": LOG, "eqx": eqx}
+        real.exec_src(
+            "def f(x: Float[N, 'a'], y: Float[N, 'a']):\n    LOG.append('body')\n    return 'ret'\n"
+            "class Mod(eqx.Module):\n    def __call__(self, x: Float[N, 'a'], y: Float[N, 'a']):\n        LOG.append('body')\n        return 'ret'\n"
+            "class Plain:\n    def __call__(self, x: Float[N, 'a'], y: Float[N, 'a']):\n        LOG.append('body')\n        return 'ret'\n", ns)
+        f = ns["f"]
+
+        def only_wrapped(fn):
+            def w(*a, **k):
+                return fn(*a, **k)
+
+            w.__wrapped__ = fn
+            return w
+
+        targets = {"wrapper-that-only-sets-__wrapped__": lambda: only_wrapped(f), "equinox-module-instance-with-annotated-__call__": lambda: ns["Mod"](), "plain-callable-instance": lambda: ns["Plain"](), "functools.partial-of-a-keyword": lambda: functools.partial(f)}
+        for tname, mk in targets.items():
+            try:
+                dec = jaxtyped(typechecker=tc)(mk())
+            except Exception as e:  # noqa
+                rec.open_corner("decoration-of-" + tname + "-raises-" + type(e).__name__)
+                continue
+            res = {}
+            for iname, (x, y) in {"well": (real.np_array((2,)), real.np_array((2,))), "ill": (real.np_array((2,)), real.np_array((3,)))}.items():
+                del LOG[:]
+                try:
+                    r = dec(x, y)
+                    res[iname] = ("ret", r == "ret", len(LOG))
+                except Exception as e:  # noqa
+                    res[iname] = ("TypeCheckError" if isinstance(e, TypeCheckError) else type(e).__name__, None, len(LOG))
+            rec.count("signature_sources.targets")
+            rec.case(("signature-source", cname, tname), True)
+            if res["well"] != ("ret", True, 1) or res["ill"] != ("TypeCheckError", None, 0):
+                rec.violation("signature-source", {"checker": cname, "target": tname}, f"jaxtyped({cname}) over a {tname}: well-typed call {res['well']}, ill-typed call {res['ill']} (expected ('ret', True, 1) and ('TypeCheckError', None, 0))", mechanism="signature-source-" + tname + "-unchecked")
+
+
 def arm_factories(rec):
     """one `def` executed several times (a factory) gives sibling functions with their own defaults: `{param}`
     axes of each sibling are evaluated against ITS defaults"""
@@ -833,6 +882,7 @@ def run_shard(rec, seed, shard, tier):
         arm_coroutine_protocol(rec)
         arm_how_it_was_called(rec)
         arm_factories(rec)
+        arm_signature_sources(rec)
     for k in range(CASES[tier]):
         key = f"{seed}/C07/{shard['i']}/{k}"
         run_case(rec, random.Random(key), rngkey=key)
